@@ -174,7 +174,11 @@ def ident_pt(ctx, f, t, p, name, region_tag):
     dvdt = (vals['t+'][0] - vals['t-'][0]) / (2 * ht)
     rhs = -tk * dvdt - p * dvdp
     scale = abs(tk * dvdt) + abs(p * dvdp) + 1e-30
-    return abs(dudp - rhs) / scale, dvdp
+    # rounding of the returned u (relative 2^-52, amplified by cancellation inside the formulation: factor 64
+    # covers what was observed) limits how well du/dp can be resolved when it is tiny (near the density
+    # maximum at low pressure); that share of the residual is not charged to the formulation
+    noise = 64 * 2.3e-16 * abs(vals['0'][1]) / hp
+    return max(0.0, abs(dudp - rhs) - noise) / scale, dvdp
 
 
 def states_r1(ctx, W, n):
